@@ -112,6 +112,13 @@ Theorem C03_register_unknown_in_bounds : forall needed, 0 <= needed ->
 Proof. exact C03_register_unknown_in_bounds_thm. Qed.
 Print Assumptions C03_register_unknown_in_bounds.
 
+(* reads by channel position after CHANNEL_CONFIG_FINISHED (supla_esp_set_channel_config) are inside the tables *)
+Theorem C03_config_finished_reads_in_bounds : forall i, 0 <= i < CHANNEL_MAX ->
+  i < N_TIME1 /\ i < N_TIME2 /\ i < N_TIME3 /\ i < N_TIME_MARGIN /\ i < N_TILT_TYPE /\ i < MOTOR_UD_BITS /\
+  i < N_CHFUNC /\ i < N_VISTYPE /\ i < N_RUNTIMECFG.
+Proof. exact C03_config_finished_reads_in_bounds_thm. Qed.
+Print Assumptions C03_config_finished_reads_in_bounds.
+
 (* the code before docs/fixes/C03_rs_config_guards.diff violates both clauses *)
 Theorem C03_old_code_refuted :
   (wf_board board_4rs /\ bytes_ok (rs_config_msg 3 FNC_RS 2) /\
